@@ -97,6 +97,11 @@ def cases(tier, seed):
             for ctl in ("Fixed", "Exact", "DistanceRatio"):
                 c = default(); c["penalty"] = pen; c["control"] = ctl; c["iteration_limit"] = H
                 out.append({"spec": spec, "cfg": c, "sc": None})
+    # a second solve on a solver object whose first solve ended in a (deliberate) error or was aborted: a status or a deliberate error again
+    for spec in (G.core_specs()[:3] + G.adversarial_specs()[:3]):
+        for ctl in ("DistanceRatio", "Exact", "Fixed"):
+            c = default(); c["control"] = ctl; c["iteration_limit"] = 60; c["params"] = {"lamb_max": 4.0, "lamb_init": 2.0}
+            out.append({"spec": spec, "cfg": c, "sc": None, "retry": True})
     # very long runs of tiny steps (fixed step size 1/1000, tens of thousands of iterations), both precisions: accumulated quantities
     for spec in (G.raw(1, {"H": [[1.0]], "g": [0.0]}, [], ["-inf"], ["inf"], [1.0], "long|quadratic1"),
                  G.raw(2, {"H": [[1.0, 0.0], [0.0, 2.0]], "g": [-2.0, 4.0]}, [{"a": [1.0, 1.0], "b": 0.0, "lb": -0.5, "ub": 0.25}], [-0.5, -0.75], [0.75, "inf"],
@@ -147,6 +152,12 @@ def run_case(case):
         return {"outcome": "setup-crash:" + ei["cls"], "key": None,
                 "violations": [M.V(f"C06|setup_crash|{ei['cls']}|{ei['site']}", f"Solver construction died: {ei['cls']}: {ei['msg']}")], "stats": {}}
     viol = M.mon_c06(ctx.rec)
+    if case.get("retry"):
+        from pgfmc.drive import run as R
+        x1 = [0.5 * v for v in case["spec"]["x0"]]
+        for k in range(2):
+            rec2 = R.run_solve(ctx.rec.solver.orig_problem, ctx.params, x1, case["spec"].get("y0"), solver=ctx.rec.solver)
+            viol += [dict(v, sig=v["sig"].replace("C06|", "C06|retry|")) for v in M.mon_c06(rec2)]
     return {"outcome": outcome_of(ctx.rec), "key": f"{case['spec']['tag']}|{key(case['cfg'])}|{ctx.weights}|{sorted((k, str(v)[:12]) for k, v in (case['cfg'].get('params') or {}).items())}", "violations": viol,
             "stats": {"it": len(ctx.rec.trials)}}
 
